@@ -117,6 +117,29 @@ Theorem C18_generated_abc_method_eq_model :
 Proof. split; [exact generated_abc_eq | exact generated_abc_correct]. Qed.
 Print Assumptions C18_generated_abc_method_eq_model.
 
+(* The description is FAITHFUL ("mirrors"): two valid signatures whose descriptions (through the
+   same number of bound leading arguments) are equal have the same remaining positional parameters
+   WITH their defaults (name by name, default by default, required-ness included), the same * and
+   ** names and the same attributes.  Nothing the statement lists can be lost or confused. *)
+Theorem C18_description_faithful :
+  forall (s1 s2 : signature) (l1 l2 : list name) (fd1 fd2 : list (name * dflt)) (iml : nat),
+  valid s1 -> NoDup (map fst fd1) -> valid s2 -> NoDup (map fst fd2) ->
+  fromFunction (layout s1 l1 fd1 iml) = fromFunction (layout s2 l2 fd2 iml) ->
+  skipn iml (posonly s1 ++ pos s1) = skipn iml (posonly s2 ++ pos s2)
+  /\ vararg s1 = vararg s2 /\ varkw s1 = varkw s2 /\ fd1 = fd2.
+Proof. exact description_faithful. Qed.
+Print Assumptions C18_description_faithful.
+
+(* ... and what must NOT influence it: keyword-only parameters (names, defaults, how many), the
+   function's local variables, and where the / separator stands *)
+Theorem C18_description_ignores_kwonly_and_locals :
+  forall (s1 s2 : signature) (l1 l2 : list name) (fd : list (name * dflt)) (iml : nat),
+  valid s1 -> valid s2 -> NoDup (map fst fd) ->
+  posonly s1 ++ pos s1 = posonly s2 ++ pos s2 -> vararg s1 = vararg s2 -> varkw s1 = varkw s2 ->
+  fromFunction (layout s1 l1 fd iml) = fromFunction (layout s2 l2 fd iml).
+Proof. exact description_ignores_kwonly_and_locals. Qed.
+Print Assumptions C18_description_ignores_kwonly_and_locals.
+
 (* ---------------------------------------------------------------- non-vacuity witnesses *)
 (* names: 0 self, 1 a, 2 b, 3 c, 4 args, 5 k, 6 j, 7 kw, 8 x (local), 9 y (local), 10 attr;
    def m(self, a, /, b, c=D0, *args, k=D1, j, **kw): x = y = None      m.attr = D2 *)
@@ -182,4 +205,18 @@ Example C18_prefix_formula_refuted :
 Proof.
   split; [split; [reflexivity | cbn; nodup]|].
   split; [vm_compute; reflexivity|]. split; [vm_compute; discriminate | vm_compute; reflexivity].
+Qed.
+
+(* the pre-fix formula was NOT faithful: it confuses   def f(a, *args, k=D1, **kw)   with
+   def f(a, *k, **args)   — two different valid signatures, one description *)
+Definition ex_sig_conf1 : signature := mkSig [] [(1, None)] (Some 4) [(5, Some 1)] (Some 7).
+Definition ex_sig_conf2 : signature := mkSig [] [(1, None)] (Some 5) [] (Some 4).
+Example C18_prefix_formula_not_faithful :
+  valid ex_sig_conf1 /\ valid ex_sig_conf2 /\
+  fromFunction_prefix (layout ex_sig_conf1 [] [] 0) = fromFunction_prefix (layout ex_sig_conf2 [] [] 0) /\
+  vararg ex_sig_conf1 <> vararg ex_sig_conf2 /\
+  fromFunction (layout ex_sig_conf1 [] [] 0) <> fromFunction (layout ex_sig_conf2 [] [] 0).
+Proof.
+  split; [split; [reflexivity | cbn; nodup]|]. split; [split; [reflexivity | cbn; nodup]|].
+  split; [vm_compute; reflexivity|]. split; [discriminate | vm_compute; discriminate].
 Qed.
